@@ -29,6 +29,53 @@ fn nss_of_stem(stem: &str) -> Vec<&'static str> {
     v
 }
 
+/// `fn mk(salt) -> (Value, members)` for a struct used as the value of an indexed update-mask accessor: every public
+/// member gets a distinct non-zero value; the members are reported by name as the integers that went in
+fn value_struct_ctor(repo: &Path, exp: &str, sname: &str, vty: &str, mk: &str) -> String {
+    let mut snake = String::new();
+    for (i, ch) in sname.chars().enumerate() {
+        if ch.is_uppercase() && i > 0 {
+            snake.push('_');
+        }
+        snake.push(ch.to_ascii_lowercase());
+    }
+    let p = repo.join(format!("wow_world_messages/src/world/{}/{}.rs", exp, snake));
+    println!("cargo:rerun-if-changed={}", p.display());
+    let src = std::fs::read_to_string(&p).unwrap_or_default();
+    let mut body = String::new();
+    let mut ok = false;
+    if let Some(s0) = src.find(&format!("pub struct {} {{", sname)) {
+        let e0 = src[s0..].find("\n}\n").map(|x| s0 + x).unwrap_or(src.len());
+        ok = true;
+        let re_f = Regex::new(r"(?m)^    pub (\w+): ([^\n]+),$").unwrap();
+        for (k, f) in re_f.captures_iter(&src[s0..e0]).enumerate() {
+            let (n, t) = (f[1].to_string(), f[2].trim().to_string());
+            let pat = format!("(0x0101_0101_0101_0101u64.wrapping_mul({}) ^ salt.wrapping_mul(0x9E37_79B9_7F4A_7C15).rotate_left({}))", k + 1, (k * 7) % 61);
+            match t.as_str() {
+                "u8" | "u16" | "u32" | "u64" | "i32" => {
+                    write!(body, "    v.{n} = ({pat} as {t}) | 1; out.push((\"{n}\", vec![v.{n} as u64]));\n", n = n, pat = pat, t = t).unwrap();
+                }
+                "Guid" => {
+                    write!(body, "    v.{n} = wow_world_messages::Guid::new({pat} | 1); out.push((\"{n}\", vec![v.{n}.guid()]));\n", n = n, pat = pat).unwrap();
+                }
+                _ if t.starts_with('[') => {
+                    let inner = t.trim_start_matches('[').trim_end_matches(']');
+                    let (el, cnt) = inner.rsplit_once(';').unwrap_or((inner, "0"));
+                    write!(body, "    {{ let mut e = Vec::new(); for j in 0..{cnt}usize {{ v.{n}[j] = (({pat}).rotate_left(8 * (j as u32 + 1)) as {el}) | 1; e.push(v.{n}[j] as u64); }} out.push((\"{n}\", e)); }}\n", n = n, pat = pat, el = el.trim(), cnt = cnt.trim()).unwrap();
+                }
+                _ => {
+                    // an enum: some declared value other than the default when there is one
+                    write!(body, "    v.{n} = (1u64..4096).map(|x| (x + salt) % 4096).find_map(|x| <wow_world_messages::{exp}::{t} as TryFrom<u64>>::try_from(x).ok()).unwrap_or_default(); out.push((\"{n}\", vec![v.{n}.as_int() as u64]));\n", n = n, exp = exp, t = t).unwrap();
+                }
+            }
+        }
+    }
+    if !ok {
+        body.clear();
+    }
+    format!("#[allow(unused_mut, unused_variables)]\npub fn {mk}(salt: u64) -> ({vty}, Vec<(&'static str, Vec<u64>)>) {{\n    let mut v = <{vty}>::default();\n    let mut out: Vec<(&'static str, Vec<u64>)> = Vec::new();\n{body}    (v, out)\n}}\n\n", mk = mk, vty = vty, body = body)
+}
+
 fn main() {
     let repo = PathBuf::from(std::env::var("VERIF_REPO").unwrap_or_else(|_| "/repo".into()));
     let mut enums = String::new();
@@ -149,6 +196,7 @@ fn main() {
     }
     // update mask accessors, grouped per (expansion, object kind)
     let mut um = String::new();
+    let mut um_fns = String::new();
     let re_impl = Regex::new(r"(?m)^impl (Update\w+) \{").unwrap();
     let re_set = Regex::new(r"(?m)^    pub fn set_(\w+)\(&mut self, ([^)]*)\) \{").unwrap();
     for exp in ["vanilla", "tbc", "wrath"] {
@@ -175,11 +223,23 @@ fn main() {
             let mut accs = Vec::new();
             let mut custom = Vec::new();
             let mut indexed = Vec::new();
+            let mut slotguid: Vec<String> = Vec::new();
             let re_idx = Regex::new(r"(?m)^    pub fn set_(\w+)\(&mut self, \w+: (crate::\w+::\w+), index: (\w+)\) \{").unwrap();
             for c in re_idx.captures_iter(block) {
                 let name = c[1].to_string();
                 if block.contains(&format!("pub fn {}(&self, index: {}) ->", name, &c[3])) {
-                    indexed.push(format!("({}, set_{}, {}, {})", name, name, c[2].replace("crate::", "wow_world_messages::"), &c[3]));
+                    let vty = c[2].replace("crate::", "wow_world_messages::");
+                    let sname = vty.rsplit("::").next().unwrap_or("").to_string();
+                    let mk = format!("mk_{}_{}", exp, name);
+                    um_fns.push_str(&value_struct_ctor(&repo, exp, &sname, &vty, &mk));
+                    indexed.push(format!("({}, set_{}, {}, {}, {}, \"{}\")", name, name, vty, &c[3], mk, sname));
+                }
+            }
+            let re_slot = Regex::new(r"(?m)^    pub fn set_(\w+)\(&mut self, \w+: (crate::\w+::\w+), \w+: Guid\) \{").unwrap();
+            for c in re_slot.captures_iter(block) {
+                let name = c[1].to_string();
+                if Regex::new(&format!(r"pub fn {}\(&self, \w+: {}\) -> Option<Guid>", name, regex::escape(&c[2]))).unwrap().is_match(block) {
+                    slotguid.push(format!("({}, set_{}, {})", name, name, c[2].replace("crate::", "wow_world_messages::")));
                 }
             }
             for c in re_set.captures_iter(block) {
@@ -202,7 +262,7 @@ fn main() {
                 }
             }
             let variant = ty.trim_start_matches("Update");
-            writeln!(um, "    um_kind!({}, {}, {}Builder, {}, [{}], custom: [{}], indexed: [{}]),", exp, ty, ty, variant, accs.join(", "), custom.join(", "), indexed.join(", ")).unwrap();
+            writeln!(um, "    um_kind!({}, {}, {}Builder, {}, [{}], custom: [{}], indexed: [{}], slotguid: [{}]),", exp, ty, ty, variant, accs.join(", "), custom.join(", "), indexed.join(", "), slotguid.join(", ")).unwrap();
         }
     }
     // message-local (synthesised) flag structs: `struct X { inner: uN, member: Option<..>, .. }` with new_*/set_* per enumerator
@@ -322,8 +382,8 @@ fn main() {
     }
     let out = format!(
         "pub fn synth_adapters() -> Vec<SynthAdapter> {{\n    vec![\n{}    ]\n}}\n\n", synth) + &format!(
-        "pub fn enum_adapters() -> Vec<EnumAdapter> {{\n    vec![\n{}    ]\n}}\n\npub fn flag_adapters() -> Vec<FlagAdapter> {{\n    vec![\n{}    ]\n}}\n\npub fn um_kinds() -> Vec<UmKind> {{\n    vec![\n{}    ]\n}}\n",
-        enums, flags, um
+        "pub fn enum_adapters() -> Vec<EnumAdapter> {{\n    vec![\n{}    ]\n}}\n\npub fn flag_adapters() -> Vec<FlagAdapter> {{\n    vec![\n{}    ]\n}}\n\n{}\npub fn um_kinds() -> Vec<UmKind> {{\n    vec![\n{}    ]\n}}\n",
+        enums, flags, um_fns, um
     );
     std::fs::write(PathBuf::from(std::env::var("OUT_DIR").unwrap()).join("typed_tables.rs"), out).unwrap();
 }
